@@ -353,11 +353,18 @@ def units(ctx, prog, only=None):
             if len(fs) != 1 or strip(p.term(p.payload())) != ('field', fs[0].ret, 0, 'Ok'):
                 return 'the DID returned is not what D::from_str accepted'
             a = fs[0].args[0]
-            bad = [x for x in apps(a, r'.') if not re.search(r'Url::as_str$|Issuer::url$|::as_str$|::url$|Deref|as_ref$', x[1])]
-            if bad or p.find_calls(r'DIDUrl::parse$|DIDUrl::did$|::did$|split|strip|find$'):
-                return 'the issuer DID is not parsed from the whole issuer URL text (%s)' % (bad[0][1][-50:] if bad else 'DID-URL reduction')
-            if not apps(a, r'Issuer::url$|::url$'):
-                return 'the text parsed is not the issuer URL'
+            # from the top of the argument down to the issuer's url(): value-preserving views only (as_str / deref)
+            while isinstance(a, tuple):
+                if a[0] in ('ref', 'deref'):
+                    a = a[1]
+                elif a[0] == 'app' and len(a[2]) == 1 and re.search(r'::as_str$|Deref|as_ref$', a[1]):
+                    a = a[2][0]
+                else:
+                    break
+            if not (isinstance(a, tuple) and a[0] == 'app' and re.search(r'Issuer::url$|::url$', a[1])):
+                return 'the issuer DID is not parsed from the whole issuer URL text (%s)' % term_str(a)[:60]
+            if p.find_calls(r'DIDUrl::parse$|DIDUrl::did$'):
+                return 'the issuer DID is obtained by reducing a DID URL'
             return None
         A.require('%s/the-whole-issuer-url-read-as-a-did' % nm, xpaths, r_iss, replay={'scenario': 'credential_validation', 'cex': {'only': '[issuer-url]'}})
 
@@ -501,7 +508,7 @@ def main(ctx):
 
     def method_lookup():
         prog2, info2 = load(c04.CRATES, src_only=c04.SRC)
-        c04.run(ctx, prog2, only=r'^DIDUrlQuery::|^resolve_method/|^resolve_method_ref/')
+        c04.run(ctx, prog2, only=r'^DIDUrlQuery::|^resolve_method/|^resolve_method_inner/|^resolve_method_ref/')
     guarded(ctx, 'method lookup in the issuer document', 'M', method_lookup)
     # "the credential returned is the one that was signed" and the issuance bound both read the issuance date: nbf, else iat (C07's
     # numeric-date obligation, re-used)
